@@ -55,6 +55,8 @@ Record raw_site := mk_raw { r_fn : nat; r_callee : string; r_class : rclass }.
 Record io_site := mk_site { s_fn : nat; s_callee : nat; s_ord : nat; s_ctx : ctxk; s_err : errk }.
 Record ctx_init := mk_init { i_fn : nat; i_field : string; i_kind : ctxk }.
 Definition fn_name (names : list string) (i : nat) : string := nth i names EmptyString.
+(* a call of context.Background / TODO / WithoutCancel, and whether a caller context was in scope *)
+Record ctx_subst := mk_subst { cs_fn : nat; cs_callee : string; cs_has_ctx : bool }.
 Record prim_shape := mk_shape { sh_precheck : bool; sh_fast : bool; sh_reg : bool; sh_stopchk : bool; sh_ordered : bool }.
 
 Definition good_shape := mk_shape true true true true true.
@@ -134,6 +136,13 @@ Definition callers_ok (names : list string) (inits : list ctx_init) (callers : l
                     String.eqb (fn_name names (s_callee s)) "server.Server.ServeConn") callers &&
   existsb (fun s => String.eqb (fn_name names (s_fn s)) "client.ConnectAndAuthenticateWithConfig") callers &&
   existsb (fun s => String.eqb (fn_name names (s_fn s)) "ccb.brokerReg.register") callers.
+
+(* nowhere in the analysed packages is the caller's context replaced by one that cannot be
+   cancelled while a context is in scope. The allow-list (function names, each with a reason
+   in notes/C19.md) is empty: the unchanged tree has no such place. *)
+Definition subst_allowed : list string := [].
+Definition substs_ok (names : list string) (l : list ctx_subst) : bool :=
+  forallb (fun c => negb (cs_has_ctx c) || existsb (String.eqb (fn_name names (cs_fn c))) subst_allowed) l.
 
 Definition bad_sites (inits : list ctx_init) (sites : list io_site) : list io_site :=
   filter (fun s => negb (site_ok inits s)) sites.
